@@ -1,0 +1,22 @@
+"""
+Verification taps, inert unless the environment variable SQLLINEAGE_VERIF=1 is set
+*and* a listener has been registered by the verification harness.
+"""
+
+import os
+from collections.abc import Callable
+from typing import Any, Optional
+
+ENABLED = os.environ.get("SQLLINEAGE_VERIF") == "1"
+
+_listener: Optional[Callable[..., Any]] = None
+
+
+def set_listener(listener: Optional[Callable[..., Any]]) -> None:
+    global _listener
+    _listener = listener if ENABLED else None
+
+
+def emit(event: str, **payload: Any) -> None:
+    if _listener is not None:
+        _listener(event, **payload)
